@@ -1,7 +1,6 @@
 //! Shrinks a failing case while the same (property, rule) keeps failing, then writes the replay file.
 
 use crate::case::{Case, Mode, GK};
-use crate::exec;
 use crate::oracle;
 use crate::verif_shim::sched::{Outcome, Plan};
 use serde_json::{json, Value};
@@ -15,8 +14,7 @@ struct Ctx<'a> {
 
 fn fails(ctx: &mut Ctx, case: &Case) -> Option<(Outcome, oracle::Viol)> {
     ctx.runs += 1;
-    let out = exec::run_case(case);
-    let an = oracle::analyse(case, &out);
+    let (out, an, _) = crate::evaluate(case);
     let v = an.viols.into_iter().find(|v| v.prop == ctx.prop && v.rule == ctx.rule)?;
     Some((out, v))
 }
@@ -55,8 +53,7 @@ fn shrink_list<T: Clone>(ctx: &mut Ctx, case: &mut Case, get: fn(&Case) -> Vec<T
 
 pub fn minimise(mut case: Case, prop: &str, rule: Option<&str>, budget: u64) -> Option<Value> {
     // 1. reproduce as given (seeded plan) and fix the rule
-    let out0 = exec::run_case(&case);
-    let an0 = oracle::analyse(&case, &out0);
+    let (out0, an0, _) = crate::evaluate(&case);
     let first = an0.viols.iter().find(|v| v.prop == prop && rule.map_or(true, |r| r == v.rule))?.clone();
     let mut ctx = Ctx { prop, rule: first.rule.to_string(), runs: 1, budget };
     let original_steps = case.steps.len() + case.items.len();
@@ -162,6 +159,17 @@ pub fn minimise(mut case: Case, prop: &str, rule: Option<&str>, budget: u64) -> 
         Plan::Scripted { decisions, .. } => decisions.len(),
         _ => 0,
     };
+    let trace_lines: Vec<String> = {
+        let all: Vec<String> = crate::trace(&out).lines().map(|l| l.to_string()).collect();
+        if all.len() > 400 {
+            let mut v: Vec<String> = all[..60].to_vec();
+            v.push(format!("... {} lines omitted (./check replay <this file> prints the complete trace) ...", all.len() - 360));
+            v.extend_from_slice(&all[all.len() - 300..]);
+            v
+        } else {
+            all
+        }
+    };
     Some(json!({
         "violation": {
             "property": prop,
@@ -180,6 +188,6 @@ pub fn minimise(mut case: Case, prop: &str, rule: Option<&str>, budget: u64) -> 
         },
         "repo": env!("VERIF_REPO_BUILT"),
         "case": case.to_json(),
-        "trace": crate::trace(&out).lines().map(|l| l.to_string()).collect::<Vec<_>>(),
+        "trace": trace_lines,
     }))
 }
